@@ -73,7 +73,7 @@ func runBurst(c *BurstCase, active, handled, published *atomic.Int64) *vkit.Outc
 			handled.Add(1)
 			active.Add(-1)
 		}
-		so := []eventbus.SubscribeOption{eventbus.Async(), eventbus.Sequential()}
+		so := h.asyncSeq()
 		if h.Ctx {
 			eventbus.SubscribeContext(bus, func(_ context.Context, e Ev) { body(e.ID) }, so...)
 		} else {
